@@ -1268,7 +1268,303 @@ class PopulationRows(Suite):
         return len([t for g in case["groups"] for t in g]) >= 2
 
 
-SUITES = [Features(), Angles(), Closed(), ShollNear(), Requests(), PopulationRows(), LmTopo()]
+
+# ----------------------------------------------------------------------------- finely sampled reconstructions
+
+def sampled_tree(desc):
+    """expand the description of a finely sampled reconstruction: `skeleton` = sorted parent array of the branch points / ends,
+    the edge into skeleton node j is an unbranched straight run of `runs[j]` segments of length `steps[j]` in direction `dirs[j]`.
+    Nodes are numbered run by run (ids sorted, every parent before its children).  Coordinates are rounded to float32 here: the
+    definitions are evaluated on exactly what the library stores."""
+    sk, runs, dirs, steps = desc["skeleton"], desc["runs"], desc["dirs"], desc["steps"]
+    pos = [np.array(desc["origin"], dtype=np.float64)]
+    end = [0]
+    pid_parts, xyz_parts = [np.array([-1], dtype=np.int64)], [pos[0][None, :]]
+    n = 1
+    for j in range(1, len(sk)):
+        k = int(runs[j])
+        u = np.array(dirs[j], dtype=np.float64)
+        u = u / np.linalg.norm(u)
+        pts = pos[sk[j]][None, :] + np.arange(1, k + 1, dtype=np.float64)[:, None] * (float(steps[j]) * u)[None, :]
+        ids = np.arange(n, n + k, dtype=np.int64)
+        pid_parts.append(np.concatenate([[end[sk[j]]], ids[:-1]]))
+        xyz_parts.append(pts)
+        pos.append(pts[-1]); end.append(n + k - 1)
+        n += k
+    xyz = np.concatenate(xyz_parts).astype(np.float32).astype(np.float64)
+    return {"n": n, "pids": np.concatenate(pid_parts), "types": [1] + [3] * (n - 1), "xyz": xyz, "r": np.ones(n), "ends": end}
+
+
+def sampled_truth(T):
+    """every quantity of a (large) tree straight from its definition, float64, in time linear in the number of nodes"""
+    n, pids, P = T["n"], [int(p) for p in T["pids"]], T["xyz"]
+    d = np.zeros(n)
+    d[1:] = np.linalg.norm(P[1:] - P[np.array(pids[1:], dtype=np.int64)], axis=1) if n > 1 else []
+    nk = [0] * n
+    for p in pids[1:]:
+        nk[p] += 1
+    kids = {}
+    for i in range(1, n):
+        if nk[pids[i]] > 1 or pids[i] == 0:
+            kids.setdefault(pids[i], []).append(i)
+    only = [0] * n                      # the child of a pass-through node
+    for i in range(1, n):
+        if nk[pids[i]] == 1:
+            only[pids[i]] = i
+    pd, bo, depth = [0.0] * n, [0] * n, [0] * n
+    bo[0] = int(nk[0] > 1)
+    for i in range(1, n):               # parents come before their children
+        pd[i] = pd[pids[i]] + float(d[i]); bo[i] = bo[pids[i]] + int(nk[i] > 1); depth[i] = depth[pids[i]] + 1
+    td = [int(nk[i] == 0) for i in range(n)]
+    for i in range(n - 1, 0, -1):
+        td[pids[i]] += td[i]
+    branches = []                       # (start, first, end, number of segments)
+    for v in range(n):
+        if (v == 0 or nk[v] > 1) and nk[v] > 0:
+            for c in (kids.get(v, []) if (nk[v] > 1 or v == 0) else []):
+                e, m = c, 1
+                while nk[e] == 1:
+                    e = only[e]; m += 1
+                branches.append((v, c, e, m))
+    dist = lambda a, b: float(np.linalg.norm(P[a] - P[b]))
+    blen = [pd[e] - pd[v] for v, c, e, m in branches]
+    tips = [i for i in range(n) if nk[i] == 0]
+    return {"d": d, "nk": nk, "kids": kids, "only": only, "pd": pd, "bo": bo, "td": td, "depth": max(depth), "branches": branches,
+            "length": math.fsum(float(x) for x in d[1:]), "branch_length": blen,
+            "branch_tortuosity": [(dist(v, e) / L) if L > 0 else 1.0 for (v, c, e, m), L in zip(branches, blen)],
+            "tips": tips, "path_length": [pd[i] for i in tips],
+            "counts": {"node": n, "tip": len(tips), "furcation": sum(1 for v in nk if v > 1), "stems": nk[0], "branch": len(branches)},
+            "radial": np.linalg.norm(P - P[0], axis=1)}
+
+
+class Sampled(Suite):
+    """finely sampled reconstructions: a handful of branch points joined by long unbranched runs of nodes at a fixed sampling step (what
+    tracing software and resampling produce).  Two regimes that small random trees never reach, both inside "for all trees":
+    DEEP trees — the nesting (nodes between a node and its deepest descendant / the root) exceeds the interpreter's recursion limit,
+    read from sys.getrecursionlimit(), by a random factor — and trees of MANY SEGMENTS (10^4 and more equal steps, where a sum that is
+    not accumulated carefully drifts systematically).  A few short members of the same construction ride along as a control.  Every
+    quantity is computed from its definition in float64 on the stored coordinates, in linear time, and compared with the tolerance
+    1e-5 of the ASSUMPTIONS; every call must return (the property is quantified over all trees)."""
+    name = "c10.sampled"
+    case_timeout = 120
+    RTOL = 1e-5
+
+    def cases(self, rng, tier, widen):
+        import sys
+
+        out = []
+        big = tier == "thorough" or widen
+        rl = sys.getrecursionlimit()
+        plan = [("short", 2), ("deep", 3), ("many-segments", 2)] if not big else [("short", 4), ("deep", 8), ("many-segments", 5)]
+        shapes = ["binary", "caterpillar", "random", "stem", "star", "highdeg", "chain", "binary"]
+        k = 0
+        for regime, count in plan:
+            for _ in range(count):
+                shape = shapes[k % len(shapes)]; k += 1
+                m = rng.randint(2, 4) if shape == "chain" else rng.randint(3, 6 if regime == "deep" and not big else 9)
+                sk = gen.parents_sorted(rng, m, shape)
+                m = len(sk)
+                if regime == "short":
+                    runs = [0] + [rng.randint(1, 40) for _ in range(m - 1)]
+                elif regime == "deep":      # every run a random fraction / multiple of the recursion limit; the deepest node lies beyond it
+                    runs = [0] + [int(rl * rng.choice([0.02, 0.1, 0.3, 0.6])) + rng.randint(1, rl // 8) for _ in range(m - 1)]
+                    runs[rng.randrange(1, m)] += int(rl * rng.uniform(1.05, 1.6 if not big else 4.0))
+                else:
+                    total = rng.randint(12000, 18000 if not big else 45000)
+                    w = [rng.uniform(0.2, 1.0) for _ in range(m - 1)]
+                    runs = [0] + [max(1, int(total * x / sum(w))) for x in w]
+                # sibling runs leave in pairwise non-parallel directions (bifurcation angles are generic, no coincident neighbours)
+                dirs = [[0, 0, 0]]
+                for j in range(1, m):
+                    for _try in range(200):
+                        dv = [rng.randint(-3, 3) for _ in range(3)]
+                        sib = [dirs[i] for i in range(1, j) if sk[i] == sk[j]] + ([[-c for c in dirs[sk[j]]]] if sk[j] else [])
+                        if any(dv) and all(any(np.cross(dv, s)) for s in sib):
+                            break
+                    dirs.append(dv)
+                base = rng.choice([0.05, 0.1, 0.25, 0.5, 1.0, rng.uniform(0.03, 2.0)])      # one sampling step per reconstruction, or one per neurite
+                steps = [0.0] + [base if k % 2 else round(rng.uniform(0.03, 2.0), 3) for _ in range(m - 1)]
+                desc = {"skeleton": sk, "runs": runs, "dirs": dirs, "steps": steps, "origin": [float(rng.randint(-3, 3)) for _ in range(3)]}
+                T = sampled_tree(desc)
+                nk = np.bincount(T["pids"][1:], minlength=T["n"])
+                first = [int(i) for i in range(1, T["n"]) if nk[T["pids"][i]] > 1]
+                ask = [0] + [e for e in T["ends"][1:]] + first
+                lim = {"short": 40, "deep": 14, "many-segments": 5}[regime] * (2 if big else 1)
+                rng.shuffle(ask)
+                furc = [v for v in ask if nk[v] > 1]
+                ask = list(dict.fromkeys([0] + furc[:2] + ask))[:lim - 2] + [rng.randrange(T["n"]) for _ in range(2)]
+                rad = np.linalg.norm(T["xyz"] - T["xyz"][0], axis=1)
+                radii = [float(rng.uniform(0.02, 1.1) * rad.max()) for _ in range(4)]
+                case = dict(desc, nodes=sorted(set(int(v) for v in ask)), radii=radii, paths=regime != "many-segments")
+                case["class"] = regime + "/" + shape
+                if regime != "short":
+                    case["big"] = True      # not part of the second pass (cost)
+                out.append(case)
+        return out
+
+    def run(self, case):
+        from swcgeom.analysis import Sholl, extract_feature
+        from swcgeom.analysis.features import BranchFeatures, FurcationFeatures, NodeFeatures, PathFeatures, TipFeatures
+        from swcgeom.analysis.lmeasure import LMeasure
+
+        T = sampled_tree(case)
+        t = gen.make_tree(T)
+        assert np.array_equal(t.xyz().astype(np.float64), T["xyz"]), "harness: coordinates not exact in float32"
+
+        def ev(f):
+            try:
+                return f()
+            except Exception as e:  # noqa: BLE001 - the oracle decides: every one of these calls must return
+                return {"exc": type(e).__name__, "msg": str(e)[:120]}
+        fl = lambda a: [float(v) for v in np.atleast_1d(a)]
+        res = {"n": T["n"]}
+        nk = np.bincount(T["pids"][1:], minlength=T["n"])
+        with warnings.catch_warnings():
+            warnings.simplefilter("ignore")
+            lm = LMeasure()
+            res["length"] = ev(lambda: float(t.length()))
+            res["branch_length"] = ev(lambda: fl(BranchFeatures(t).get_length()))
+            res["branch_length_direct"] = ev(lambda: [float(b.length()) for b in t.get_branches()])
+            res["branch_tortuosity"] = ev(lambda: fl(BranchFeatures(t).get_tortuosity()))
+            nf = NodeFeatures(t)
+            res["counts"] = ev(lambda: [int(nf.get_count()[0]), int(TipFeatures(nf).get_count()[0]), int(FurcationFeatures(nf).get_count()[0]),
+                                        int(BranchFeatures(t).get_count())])
+            res["lm_counts"] = ev(lambda: [int(lm.n_stems(t)), int(lm.n_bifs(t)), int(lm.n_branch(t)), int(lm.n_tips(t))])
+            res["radial"] = ev(lambda: [float(v) for v in np.asarray(nf.get_radial_distance())[case["nodes"]]])
+            res["radial_size"] = ev(lambda: int(np.asarray(nf.get_radial_distance()).size))
+            res["fragmentation"] = ev(lambda: [int(lm.fragmentation(b)) for b in t.get_branches()])
+            res["contraction"] = ev(lambda: [float(lm.contraction(b)) for b in t.get_branches()])
+            if case["paths"]:
+                res["path_length"] = ev(lambda: fl(PathFeatures(t).get_length()))
+            res["sholl"] = ev(lambda: [int(v) for v in Sholl(t).get(steps=[float(r) for r in case["radii"]])])
+            fe = ev(lambda: extract_feature(t))
+            for name in ["length", "branch_length", "node_count", "tip_count", "furcation_count"]:
+                res["fe_" + name] = fe if isinstance(fe, dict) else ev(lambda: fl(fe.get(name)))
+            per = {}
+            for v in case["nodes"]:
+                nd = ev(lambda: t.node(v))
+                if isinstance(nd, dict):
+                    per[str(v)] = {"node": nd}; continue
+                q = {"path_distance": ev(lambda: float(lm.path_distance(nd))), "euc_distance": ev(lambda: float(lm.euc_distance(nd))),
+                     "branch_order": ev(lambda: int(lm.branch_order(nd))), "terminal_degree": ev(lambda: int(lm.terminal_degree(nd)))}
+                if nk[v] == 2:
+                    q["partition_asymmetry"] = ev(lambda: float(lm.partition_asymmetry(nd)))
+                    q["bif_ampl_local"] = ev(lambda: float(lm.bif_ampl_local(nd)))
+                    q["bif_ampl_remote"] = ev(lambda: float(lm.bif_ampl_remote(nd)))
+                per[str(v)] = q
+            res["per"] = per
+        return res
+
+    def oracle(self, case, res):
+        try:
+            return self._oracle(case, res)
+        except Exception as e:  # noqa: BLE001 - a malformed answer must not crash the check
+            return [("features-raise", f"the answers for the sampled tree {self._say(case)} could not be judged ({type(e).__name__}: {e}): {str(res)[:300]}")]
+
+    @staticmethod
+    def _say(case):
+        return (f"(skeleton parents {case['skeleton']}, unbranched runs of {case['runs'][1:]} segments with steps {case['steps'][1:]} in directions "
+                f"{case['dirs'][1:]} from {case['origin']})")
+
+    def _oracle(self, case, res):
+        import sys
+
+        say = self._say(case)
+        if not isinstance(res, dict) or "exc" in res or "per" not in res:
+            r = res if isinstance(res, dict) else {}
+            return [("features-raise", f"{r.get('exc')}: {r.get('msg')} on the sampled tree {say}")]
+        T = sampled_tree(case)
+        tr = sampled_truth(T)
+        n = T["n"]
+        where = f"tree of {n} nodes, depth {tr['depth']} (recursion limit {sys.getrecursionlimit()}) {say}"
+        out = []
+        num = lambda v: isinstance(v, (int, float)) and not isinstance(v, bool) and math.isfinite(v)
+        close = lambda a, b: num(a) and abs(a - b) <= self.RTOL * max(1.0, abs(b))
+
+        def judge(key, got, want, what, sort=False, tol=None):
+            """got: a number / a list of numbers / {"exc": …}"""
+            if isinstance(got, dict):
+                out.append((key + "-raises", f"{what} raised {got.get('exc')}: {got.get('msg')}; the definition gives {str(want)[:120]} — {where}")); return
+            ok_ = (lambda a, b: num(a) and abs(a - b) <= tol) if tol is not None else close
+            if isinstance(want, list):
+                ok = isinstance(got, list) and len(got) == len(want) and all(num(v) for v in got)
+                if ok:
+                    g, w = (sorted(got), sorted(want)) if sort else (got, want)
+                    ok = all((a == b) if isinstance(b, int) else ok_(a, b) for a, b in zip(g, w))
+            else:
+                ok = (got == want) if isinstance(want, int) else ok_(got, want)
+            if not ok:
+                out.append((key, f"{what}: library says {str(got)[:160]}, the definition gives {str(want)[:160]} — {where}"))
+
+        c = tr["counts"]
+        judge("length", res.get("length"), tr["length"], "Tree.length() = Σ parent-child distances")
+        bl = res.get("branch_length")
+        if isinstance(bl, list) and all(num(v) for v in bl) and num(res.get("length")):
+            judge("length-vs-branches", res["length"], math.fsum(bl), "Tree.length() = Σ BranchFeatures.get_length()")
+        judge("branch-length", bl, tr["branch_length"], "BranchFeatures.get_length()", sort=True)
+        judge("branch-length", res.get("branch_length_direct"), tr["branch_length"], "Branch.length() of get_branches()", sort=True)
+        judge("branch-tortuosity", res.get("branch_tortuosity"), tr["branch_tortuosity"], "BranchFeatures.get_tortuosity()", sort=True)
+        cnt = res.get("counts")
+        judge("node-count", cnt, [c["node"], c["tip"], c["furcation"], c["branch"]], "node / tip / furcation / branch counts")
+        judge("lm-counts", res.get("lm_counts"), [c["stems"], c["furcation"], c["branch"], c["tip"]], "L-Measure n_stems/n_bifs/n_branch/n_tips")
+        judge("radial-distance", res.get("radial"), [float(tr["radial"][v]) for v in case["nodes"]], f"radial distance of nodes {case['nodes']}")
+        judge("radial-distance", res.get("radial_size"), n, "number of radial distances")
+        judge("lm-fragmentation", res.get("fragmentation"), [int(b[3]) for b in tr["branches"]], "fragmentation of the branches", sort=True)
+        judge("lm-contraction", res.get("contraction"), tr["branch_tortuosity"], "contraction of the branches", sort=True)
+        if case.get("paths"):
+            judge("path-length", res.get("path_length"), tr["path_length"], "PathFeatures.get_length()", sort=True)
+        sh = res.get("sholl")
+        if isinstance(sh, dict):
+            judge("sholl", sh, None, f"Sholl.get(steps={case['radii']})")
+        elif not (isinstance(sh, list) and len(sh) == len(case["radii"])):
+            out.append(("sholl", f"Sholl.get(steps={case['radii']}) returned {str(sh)[:120]} — {where}"))
+        else:
+            rad, pp = tr["radial"], np.array([0] + [int(p) for p in T["pids"][1:]])
+            lo_, hi_ = np.minimum(rad, rad[pp])[1:], np.maximum(rad, rad[pp])[1:]
+            for g, r in zip(sh, case["radii"]):      # judged where no node sits within 1e-5 of the radius
+                lo, hi = (int(np.sum((lo_ <= x) & (x < hi_))) for x in (r * (1 - 1e-5), r * (1 + 1e-5)))
+                if lo == hi and g != lo:
+                    out.append(("sholl", f"Sholl.get counts {g} intersections at radius {r}, the definition gives {lo} — {where}")); break
+        judge("extract-single", res.get("fe_length"), [tr["length"]], "extract_feature(tree).get('length')")
+        judge("extract-single", res.get("fe_branch_length"), tr["branch_length"], "extract_feature(tree).get('branch_length')", sort=True)
+        for name, want in (("node_count", c["node"]), ("tip_count", c["tip"]), ("furcation_count", c["furcation"])):
+            judge("extract-single", res.get("fe_" + name), [float(want)], f"extract_feature(tree).get({name!r})")
+        P = T["xyz"]
+
+        def ang(u, w):
+            return math.degrees(math.acos(max(-1.0, min(1.0, float(np.dot(u, w) / (np.linalg.norm(u) * np.linalg.norm(w)))))))
+        for v in case["nodes"]:
+            q = res["per"].get(str(v))
+            if not isinstance(q, dict) or "node" in q:
+                out.append(("features-raise", f"Tree.node({v}) failed: {q} — {where}")); continue
+            at = f"at node {v} ({tr['nk'][v]} children, {int(tr['bo'][v])} furcations above or at it)"
+            judge("lm-path-distance", q.get("path_distance"), tr["pd"][v], f"path distance to the soma {at}")
+            judge("lm-euc-distance", q.get("euc_distance"), float(tr["radial"][v]), f"Euclidean distance to the soma {at}")
+            judge("lm-branch-order", q.get("branch_order"), int(tr["bo"][v]), f"L-Measure branch order {at}")
+            judge("lm-terminal-degree", q.get("terminal_degree"), int(tr["td"][v]), f"terminal degree (tips at or below) {at}")
+            if tr["nk"][v] == 2:
+                a, b = tr["kids"][v]
+                n1, n2 = tr["td"][a], tr["td"][b]
+                judge("lm-partition-asymmetry", q.get("partition_asymmetry"), 0.0 if n1 == n2 else abs(n1 - n2) / (n1 + n2 - 2),
+                      f"partition asymmetry (daughters carry {n1} and {n2} tips) {at}")
+                ea, eb = a, b
+                while tr["nk"][ea] == 1:
+                    ea = tr["only"][ea]
+                while tr["nk"][eb] == 1:
+                    eb = tr["only"][eb]
+                judge("lm-bif-angle-local", q.get("bif_ampl_local"), ang(P[a] - P[v], P[b] - P[v]), f"local bifurcation angle {at}", tol=0.05)
+                judge("lm-bif-angle-remote", q.get("bif_ampl_remote"), ang(P[ea] - P[v], P[eb] - P[v]), f"remote bifurcation angle {at}", tol=0.05)
+        seen, uniq = set(), []
+        for key, msg in out:                # one message per key: the evidence stays readable
+            if key not in seen:
+                seen.add(key); uniq.append((key, msg))
+        return uniq[:6]
+
+    def nontrivial(self, case, res):
+        return len(case["skeleton"]) >= 3
+
+
+SUITES = [Features(), Angles(), Closed(), ShollNear(), Requests(), PopulationRows(), Sampled(), LmTopo()]
 TECHNIQUE = ("Lean 4 theorems about the feature models (tree length = Σ edge lengths = Σ branch lengths via C08's edge partition; path length = path distance of its tip; "
              "counts, branch order, terminal degree, Sholl straddle count read off their definitions; partition asymmetry REGENERATED from lmeasure.py; zero-padded "
              "population rows) + differential correspondence (exact on integer-edge lattice trees) + an oracle computing every quantity from its definition in float64")
